@@ -136,9 +136,9 @@ func runChanOnce(t *testing.T, sc CScenario) (tr Trace) {
 					case err == nil:
 						res = "v" + strconv.Itoa(item)
 					case item != 0:
-						res = "other(item with " + errName(err) + ")"
+						res = "other(item with " + errName(err, ctx, nil) + ")"
 					default:
-						res = errName(err)
+						res = errName(err, ctx, nil)
 					}
 				}()
 			case "cancelnext":
